@@ -250,6 +250,9 @@ func (p *Parser) parseTaxa() (int64, map[string]bool, error) {
 		case EOF:
 			err = fmt.Errorf("end of file within a TAXA block (no END;)")
 			stoptaxa = true
+		case ENDOFCOMMAND:
+			// Empty command (";;"): nothing to do. It must not start an "unsupported command",
+			// which would swallow the next command (e.g. DIMENSIONS) up to its ";"
 		case BEGIN:
 			// Blocks do not nest: the TAXA block was not terminated
 			err = fmt.Errorf("BEGIN within a TAXA block (no END;)")
@@ -352,6 +355,9 @@ func (p *Parser) parseData() (names []string, sequences map[string]string, nchar
 		case EOF:
 			err = fmt.Errorf("end of file within a TAXA block (no END;)")
 			stopdata = true
+		case ENDOFCOMMAND:
+			// Empty command (";;"): nothing to do. It must not start an "unsupported command",
+			// which would swallow the next command (e.g. DIMENSIONS) up to its ";"
 		case BEGIN:
 			// Blocks do not nest: the DATA block was not terminated
 			err = fmt.Errorf("BEGIN within a DATA block (no END;)")
